@@ -392,8 +392,8 @@ func (c *Ctx) Discharge(s *PanicSite, depth int) (bool, string) {
 			k, _ := strconv.ParseInt(e.Args[1].S, 10, 64)
 			return c.requireLen(s, e.Args[0].Args[0], k, depth)
 		}
-		if e.K == "len" || e.K == "const" {
-			return true, "length is a len()"
+		if e.K == "len" || e.K == "const" || nonNegative(e) {
+			return true, "length is non-negative by construction"
 		}
 		if e.K == "call" || e.K == "param" || e.K == "field" || e.K == "conv" {
 			// unsigned / parsed counts are the caller's business; negative make length panics only for signed negatives
@@ -603,8 +603,13 @@ func (c *Ctx) dischargeIndex(s *PanicSite, depth int) (bool, string) {
 func nonNegative(e *Ex) bool {
 	switch e.K {
 	case "acc":
-		// counter starting at a non-negative constant and only incremented
-		if len(e.Args) >= 1 && e.Args[0].K == "const" && !strings.HasPrefix(e.Args[0].S, "-") {
+		// counter starting at a non-negative constant and only increased by non-negative amounts
+		if strings.HasPrefix(e.S, "+") && len(e.Args) >= 1 && e.Args[0].K == "const" && !strings.HasPrefix(e.Args[0].S, "-") {
+			for _, st := range e.Args[1:] {
+				if !nonNegative(st) {
+					return false
+				}
+			}
 			return true
 		}
 	case "loopvar":
